@@ -16,12 +16,15 @@ from sqv.values import canon
 ID = 'C13'
 LEVEL = 'exploration'
 RULE = ('Hypothesis: every non-mutator in the live FUNCTIONS table x argument tuples from per-builtin shape tables (lists, '
-        'tuples, dicts, nested, strings, key functions, reverse flags, missing keys, defaults), called directly and through '
+        'tuples, dicts, nested, strings, key functions, reverse flags, missing keys, defaults; 1 in 7 with extra trailing '
+        'container arguments; in 3 of 8 cases every dict is supplied as defaultdict / OrderedDict / a dict subclass with '
+        '__missing__), called directly and through '
         'eval in 6 program forms (alone, piped, twice, inside map, with the result mutated afterwards). Oracle: deep '
         'snapshot of every argument (structure, element and key order, exact types, identity of nested containers) is '
         'unchanged after the call, whatever it returned or raised. Non-trivial: >= 1 non-empty container argument and '
         'the call returned normally; distinct by builtin + arguments + form.')
-ASSUMPTIONS = ['the mutators are exactly push, pop, insert, remove, __setitem__, __setitem_with_op__, __delitem__ '
+ASSUMPTIONS = ['the subscript builtin __getitem__ is not judged on host mapping types whose own subscript operator inserts (defaultdict)',
+               'the mutators are exactly push, pop, insert, remove, __setitem__, __setitem_with_op__, __delitem__ '
                '(the statement\'s list); any other table entry, including new ones, must leave its arguments alone']
 
 _parser = None
@@ -38,6 +41,8 @@ def parser():
 def snap(v, depth=0):
     if depth > 40:
         return 'deep'
+    if isinstance(v, dict) and type(v) is not dict:
+        return ('dict:' + type(v).__name__, id(v), [(snap(k, depth + 1), snap(x, depth + 1)) for k, x in v.items()])
     if isinstance(v, list):
         return ('list', id(v), [snap(x, depth + 1) for x in v])
     if isinstance(v, tuple):
@@ -54,6 +59,38 @@ PY_LAMBDAS = {
     '(a, b) => [a, b]': lambda a, b: [a, b], '(a, b) => a == b': lambda a, b: a == b,
 }
 FORMS = ['{c}', '{c} | str', '[{c}, {c}]', 'r = {c}\nr', 'map([1, 2], q => {c})', 'r = {c}\nr.push(1)\nr']
+
+
+class MissingDict(dict):
+    """a host mapping type whose subscript operator has a side effect for absent keys (like collections.defaultdict)"""
+
+    def __missing__(self, key):
+        self[key] = v = []
+        return v
+
+
+def wrap_dicts(v, kind, depth=0):
+    """host-supplied values need not be exact dicts: rebuild every dict in `v` as a mapping type of the given kind"""
+    import collections
+    if kind is None or depth > 30:
+        return v
+    if isinstance(v, dict):
+        items = [(k, wrap_dicts(x, kind, depth + 1)) for k, x in v.items()]
+        if kind == 'defaultdict':
+            d = collections.defaultdict(list)
+            d.update(items)
+            return d
+        if kind == 'ordered':
+            return collections.OrderedDict(items)
+        return MissingDict(items)
+    if isinstance(v, list):
+        return [wrap_dicts(x, kind, depth + 1) for x in v]
+    if isinstance(v, tuple) and not shapes.is_marker(v):
+        return tuple(wrap_dicts(x, kind, depth + 1) for x in v)
+    return v
+
+
+WRAPS = [None, None, None, None, None, 'defaultdict', 'ordered', 'missing-subclass']
 
 
 def has_container(args):
@@ -131,7 +168,7 @@ def run_eval(name, args, form, case):
 
 
 def run_case(case):
-    args = core.dec(case['args'])
+    args = wrap_dicts(core.dec(case['args']), case.get('wrap'))
     if case['mode'] == 'direct':
         return run_direct(case['builtin'], args, case)[0]
     return run_eval(case['builtin'], args, case['form'], case)[0]
@@ -141,10 +178,10 @@ def run_case(case):
 def cases(draw, table):
     a = shapes.Args(draw)
     name = a.pick(table)
-    args = a.call(name, typed_ratio=9)
+    args = a.call(name, typed_ratio=9, overflow=7)
     mode = 'direct' if a.n(2) else 'eval'
     form = a.pick(FORMS + ['|', '|', 'idx:{c}', 'idx:{c}', 'idx:|', 'idx:r = {c}\nr'])
-    return name, args, mode, form
+    return name, args, mode, form, a.pick(WRAPS)
 
 
 def jobs(tier, seed):
@@ -152,8 +189,8 @@ def jobs(tier, seed):
     return [(core.derive_seed(seed, 'c13', i), per) for i in range(16)]
 
 
-def encode_case(name, args, mode, form):
-    return {'builtin': name, 'args': core.enc(list(args)), 'mode': mode, 'form': form}
+def encode_case(name, args, mode, form, wrap=None):
+    return {'builtin': name, 'args': core.enc(list(args)), 'mode': mode, 'form': form, 'wrap': wrap}
 
 
 def run_job(job):
@@ -164,10 +201,13 @@ def run_job(job):
     calls, oks = {}, {}
 
     def check(c):
-        name, args, mode, form = c
+        name, args, mode, form, wrap = c
         if any(shapes.is_marker(a) and a[0] == 'builtin' and a[1] in shapes.MUTATORS for a in args):
             return hyp.Result(discard=True)     # a mutator passed as the callback mutates by design
-        case = encode_case(name, args, mode, form)
+        if name == '__getitem__' and wrap in ('defaultdict', 'missing-subclass'):
+            wrap = None         # subscripting such a mapping inserts by the host type's own definition: not the builtin's doing
+        case = encode_case(name, args, mode, form, wrap)
+        args = wrap_dicts(args, wrap)
         if mode == 'direct':
             fails, info = run_direct(name, args, case)
         else:
@@ -175,8 +215,8 @@ def run_job(job):
         calls[name] = calls.get(name, 0) + 1
         if info['ok']:
             oks[name] = oks.get(name, 0) + 1
-        return hyp.Result(fails, info['ok'] and has_container(args), [mode, 'returned' if info['ok'] else 'raised'],
-                          key=repr((name, case['args'], mode, form)),
+        return hyp.Result(fails, info['ok'] and has_container(args), [mode, 'returned' if info['ok'] else 'raised'] + (['host-mapping:' + wrap] if wrap else []),
+                          key=repr((name, case['args'], mode, form, wrap)),
                           sample={'builtin': name, 'args': case['args'], 'mode': mode, 'src': info.get('src')})
 
     hyp.drive(cases(table), check, st, seed=seed, max_examples=n)
